@@ -246,7 +246,9 @@ LINES = [VALID, VALID + b"t" * 2000, b"titan://example.org/big.bin;size=1536;mim
          b"gemini://\n\r\n", b"http://example.org/\r\n", b"gemini://u:p@example.org/\r\n", b"gemini://example.org/#frag\r\n",
          b"\xff\xfe\r\n", b"gemini://example.org/" + b"a" * 1003 + b"\r\n", b"gemini://example.org/" + b"a" * 1100 + b"\r\n",
          b"x" * 1100, b"titan://example.org/up.txt;size=5;mime=text/plain\r\nhello", b"titan://example.org/up.txt;size=0\r\n",
-         b"titan://example.org/up.txt;size=-1\r\nx", b"titan://example.org/up.txt\r\n"]
+         b"titan://example.org/up.txt;size=-1\r\nx", b"titan://example.org/up.txt\r\n",
+         b"titan://example.org/mirror/titan://other.host/f.gmi;size=4;mime=text/plain\r\nabcd", b"titan://example.org/pub;v/../admin/x.gmi;size=3;mime=text/plain\r\nabc",
+         b"titan://example.org/caf\xc3\xa9/\xe6\x97\xa5.gmi;size=2;mime=text/plain\r\nok", b"gemini://example.org/caf\xc3\xa9/\xe6\x97\xa5\xe6\x9c\xac?q=\xf0\x9f\x98\x80\r\n"]
 BEHAVIOURS = ["ok", "bytes", "bare-cr-in-error", "raise-cr", "body-on-51", "lf-in-meta", "crlf-in-error", "long-meta", "status-7", "status-99", "surrogate-body", "surrogate-meta", "raise", "raise-lookup"]
 CHAINS = [None, "allow", "deny", "deny-none", "deny-garbage", "deny-two-lines", "raise"]
 
@@ -363,6 +365,17 @@ def bank(focus=None):
                 bad.append("a valid request did not reach the handler")
             if is_titan and up and r["upload_calls"]:
                 pth, size, content = r["upload_calls"][0]
+                from urllib.parse import urlsplit as _us
+                text_line = line.split(b"\r\n")[0].decode("utf-8", "replace")
+                want_path = _us("gemini://" + text_line[len("titan://"):].split(";")[0]).path or "/"
+                if pth.split(";")[0] != want_path:
+                    bad.append(f"the upload handler was given path {pth!r}, the request line names {want_path!r}")
+                if chain and r["chain_calls"]:
+                    cu = r["chain_calls"][0][0]
+                    import re as _re
+                    cpath = _re.sub(r"(;(size|mime|token)=[^;]*)+$", "", _us(cu).path or "/")
+                    if cpath != pth:
+                        bad.append(f"the chain was consulted about {cu!r} while the upload handler acts on path {pth!r}")
                 want = line.split(b"\r\n", 1)[1][:size]
                 if content != want:
                     bad.append(f"upload content {content!r} differs from the {size} bytes sent {want!r}")
